@@ -123,3 +123,61 @@ func VerifC04Deliver() {
 	}
 	vReach("end")
 }
+
+// VerifC04Resubscribe: a subscription replaced by a second SUBSCRIBE on the same filter (different QoS,
+// identifier, Retain As Published) is the one in force afterwards - also after the session is resumed by a new
+// connection (the index is rebuilt from the session then) - through the real connection handler.
+func VerifC04Resubscribe() {
+	s, _ := vNewServer(nil)
+	ver := byte(5)
+	q1, q2 := vByteIn("\x00\x01\x02"), vByteIn("\x00\x01\x02")
+	id1, id2 := 1+vChoose(2), 1+vChoose(2)
+	sub := func(id uint16, q byte, ident int, rap bool) []byte {
+		// SUBSCRIBE v5 with a subscription identifier property: [id][props: 0x0B ident]["a"][options]
+		opts := q
+		if rap {
+			opts |= 0x08
+		}
+		b := append(vU16b(id), 2, 0x0B, byte(ident))
+		b = append(b, vStrb("a")...)
+		b = append(b, opts)
+		return append([]byte{packets.Subscribe<<4 | 2, byte(len(b))}, b...)
+	}
+	rap1, rap2 := vBool(), vBool()
+	c := vDial(s, vConnOpts{ver: ver, id: "c1", clean: false, keepalive: 60, seiSet: true, sei: 100, rm: 10})
+	vSend(c, sub(1, q1, id1, rap1))
+	vSend(c, sub(2, q2, id2, rap2))
+	if vBool() {
+		// the session is resumed by a new connection (takeover, or after a hang-up)
+		if vBool() {
+			vHangup(c)
+		}
+		c = vDial(s, vConnOpts{ver: ver, id: "c1", clean: false, keepalive: 60, seiSet: true, sei: 100, rm: 10})
+		vReach("resumed")
+	}
+	before := len(vParseWire(vConnWritten(c), ver).Pkts)
+	pq := vByteIn("\x00\x01\x02")
+	retain := vBool()
+	pub := vDial(s, vConnOpts{ver: 5, id: "pub", clean: true, keepalive: 60})
+	vSend(pub, vPublishBytes("a", 7, pq, 5, retain, 5))
+	w := vParseWire(vConnWritten(c), ver)
+	var pubs []vPkt
+	for _, p := range w.Pkts[before:] {
+		if p.Type == packets.Publish {
+			pubs = append(pubs, p)
+		}
+	}
+	vAssert("exactly-one-copy", len(pubs) == 1)
+	if len(pubs) != 1 {
+		return
+	}
+	p := pubs[0]
+	want := pq
+	if q2 < want {
+		want = q2
+	}
+	vAssert("delivered-qos-follows-the-replacing-subscription", (p.Flags>>1)&3 == want)
+	vAssert("identifier-of-the-replacing-subscription", len(p.SubIDs) == 1 && p.SubIDs[0] == id2)
+	vAssert("retain-flag-follows-the-replacing-subscription", (p.Flags&1 == 1) == (retain && rap2))
+	vReach("end")
+}
